@@ -3908,6 +3908,13 @@ func (a *Association) popPendingDataChunksToSend( //nolint:cyclop,gocognit
 				addBytes := int(commonHeaderSize) + chunkBytes
 
 				if addBytes <= int(a.MTU()) && a.tlrAllowSendLocked(budgetScaled, consumed, addBytes) {
+					// The probe uses up receiver window like any other DATA chunk; without
+					// this, further chunks would follow it into a window that is closed.
+					if probeLen := uint32(len(c.userData)); a.RWND() > probeLen { //nolint:gosec // G115
+						a.setRWND(a.RWND() - probeLen)
+					} else {
+						a.setRWND(0)
+					}
 					a.movePendingDataChunkToInflightQueue(c)
 					chunks = append(chunks, c)
 				}
